@@ -1,14 +1,14 @@
 SPECIFICATION Spec
 CONSTANTS
-  NUnits = 2
+  NUnits = 3
   States = {"S1", "S2"}
-  Counties = {"c1", "c2"}
+  Counties = {"c1"}
   Classes = {"k1"}
   Districts = {"d1"}
   Policies = {"drop", "zero"}
   Offices = {FALSE, TRUE}
-  LevelLists <- LL_All
-  BlockLists <- BL_All
+  LevelLists <- LL_Full
+  BlockLists <- BL_None
   AllowMismatch = FALSE
   Export = FALSE
   WithOutputs = FALSE
